@@ -987,6 +987,17 @@ pub fn run_drop(opts: &Opts, rep: &mut Report, small: bool) {
         rep.add("ops", log.len() as u64);
         let created: Vec<u32> = (0..next_id).filter(|&i| reg.created[i as usize].load(Ordering::Relaxed) > 0).collect();
         let dropped_before: u32 = created.iter().map(|&i| reg.drops[i as usize].load(Ordering::Relaxed)).sum();
+        // C11: until the last handle goes away every published item keeps exactly the columns that were filled for it
+        let mut damaged: Option<String> = None;
+        let scan_to = sh.vec.count().min(20_000);
+        for i in 0..scan_to {
+            if let Some(item) = sh.vec.get(i) {
+                if let Err(e) = verify_item(&item, ncols) {
+                    damaged = Some(format!("index {i}: {e}"));
+                    break;
+                }
+            }
+        }
         // the last handle goes away
         reg.live_handles.store(0, Ordering::Relaxed);
         let final_count = sh.vec.count();
@@ -1027,6 +1038,9 @@ pub fn run_drop(opts: &Opts, rep: &mut Report, small: bool) {
         }
         if reg.early_drops.load(Ordering::Relaxed) > 0 {
             rep.violation("C11", "payload-dropped-while-reachable", sig("vector"), detail(format!("{} early drops", reg.early_drops.load(Ordering::Relaxed))));
+        }
+        if let Some(d) = damaged {
+            rep.violation("C11", "columns-destroyed-while-reachable", sig("vector"), detail(format!("after all operations returned and before any handle was dropped: {d}")));
         }
         if reg.bad_canary.load(Ordering::Relaxed) > 0 {
             rep.violation("C11", "drop-of-invalid-payload", sig("vector"), detail("canary invalid in Drop (double drop / use after drop)".into()));
